@@ -12,6 +12,7 @@ import (
 	"encoding/binary"
 	"runtime"
 	"strconv"
+	"time"
 
 	"github.com/named-data/ndnd/fw/core"
 	"github.com/named-data/ndnd/fw/defn"
@@ -458,6 +459,19 @@ func (t *Thread) processIncomingData(packet *defn.Pkt) {
 		// Unsolicited Data - nothing more to do
 		core.LogDebug(t, "Unsolicited data ", packet.Name, " FaceID=", *packet.IncomingFaceID, " - DROP")
 		return
+	}
+
+	// An in-record whose InterestLifetime has elapsed is not a pending Interest any
+	// more, even though the PIT entry lives on for the other in- and out-records:
+	// the Data must not be sent to that face
+	now := time.Now()
+	for _, pitEntry := range pitEntries {
+		for face, record := range pitEntry.InRecords() {
+			if !record.ExpirationTime.After(now) {
+				delete(pitEntry.InRecords(), face)
+				t.NUnsatisfiedInterests++
+			}
+		}
 	}
 
 	// Get strategy for name
